@@ -896,6 +896,17 @@ func check(c Case) (out ev.Outcome) {
 		// a deviation: is it exactly the effect of listed findings? Look for the smallest set of open
 		// deviation modes that reproduces the library's verdict with every member of the set at work
 		// (a listed finding that has been repaired in the meantime then simply never takes part).
+		// Array-valued enum members against typed Go slices: the statement does not say in which Go
+		// representation an array enum member is to be compared ([]string{"a"} against the decoded
+		// JSON member []interface{}{"a"}); the library requires identical Go types. Such cases are
+		// outside the domain and counted.
+		{
+			o2 := opts
+			o2.Dev = sm.Dev{sm.DevEnumTypedSlice: true}
+			if replica, tr2 := sm.Eval(&c.Def, c.Value, o2); replica == got && tr2.Touched[sm.DevEnumTypedSlice] {
+				return ev.Outcome{Excluded: []string{"array-valued enum member compared with a differently typed Go slice"}, Classes: []string{"excluded"}}
+			}
+		}
 		var open []string
 		for _, n := range sm.AllDeviations {
 			if _, ok := ev.KnownOpen(n); ok {
